@@ -73,6 +73,8 @@ pub enum Start {
     Built(Vec<Op>),
     /// `BTreeIndex::bulk_load` of sorted (key, row id) entries
     Bulk(Vec<(u16, u16)>),
+    /// `bulk_load`, then operations (every intermediate state is checked as well)
+    BulkThen(Vec<(u16, u16)>, Vec<Op>),
 }
 
 impl Start {
@@ -81,6 +83,7 @@ impl Start {
             Start::Empty => "empty",
             Start::Built(_) => "built",
             Start::Bulk(_) => "bulk_load",
+            Start::BulkThen(..) => "bulk_load_then",
         }
     }
     fn to_json(&self) -> Value {
@@ -88,6 +91,7 @@ impl Start {
             Start::Empty => json!({"kind": "empty"}),
             Start::Built(ops) => json!({"kind": "built", "ops": ops.iter().map(|o| o.to_json()).collect::<Vec<_>>()}),
             Start::Bulk(e) => json!({"kind": "bulk_load", "entries": e}),
+            Start::BulkThen(e, ops) => json!({"kind": "bulk_load_then", "entries": e, "ops": ops.iter().map(|o| o.to_json()).collect::<Vec<_>>()}),
         }
     }
     fn from_json(v: &Value) -> Option<Start> {
@@ -95,6 +99,10 @@ impl Start {
             "empty" => Some(Start::Empty),
             "built" => Some(Start::Built(v["ops"].as_array()?.iter().filter_map(Op::from_json).collect())),
             "bulk_load" => Some(Start::Bulk(v["entries"].as_array()?.iter().filter_map(|e| Some((e.get(0)?.as_u64()? as u16, e.get(1)?.as_u64()? as u16))).collect())),
+            "bulk_load_then" => Some(Start::BulkThen(
+                v["entries"].as_array()?.iter().filter_map(|e| Some((e.get(0)?.as_u64()? as u16, e.get(1)?.as_u64()? as u16))).collect(),
+                v["ops"].as_array()?.iter().filter_map(Op::from_json).collect(),
+            )),
             _ => None,
         }
     }
@@ -138,6 +146,13 @@ fn zigzag(d: &Domain, n: usize) -> Vec<Op> {
         }
     }
     out
+}
+
+/// the inserts of `ins` turned into deletes of the same keys in the same order
+fn as_deletes(ins: &[Op]) -> Vec<Op> {
+    ins.iter().map(|o| match o {
+        Op::Ins(k, _) | Op::Del(k) | Op::DelSpec(k, _) => Op::Del(*k),
+    }).collect()
 }
 
 fn bulk_prefix(d: &Domain, n: usize, dups: bool) -> Start {
@@ -213,6 +228,32 @@ pub fn families(thorough: bool) -> Result<Vec<Family>, String> {
         }
         starts.extend(bulk_subsets(&d, if thorough { 8 } else { 5 }));
         f.push(Family { name: "bulk", reduced: b.reduced(&d), battery: b, rids: vec![0, 1], cap: 3, delspec: true, canonical: false, starts, depth: if thorough { 2 } else { 1 }, max_secs: if thorough { 200.0 } else { 60.0 }, dom: d });
+    }
+    // C': drains — a tree of height 3 (28 keys at degree 5) built in ascending / descending / outside-in
+    // order or bulk-loaded, then emptied key by key in each of those orders; every intermediate state is
+    // checked. Emptying from one edge drives the internal nodes at that edge through underflow: borrow
+    // from the right (left) sibling, merge, root collapse — which depth-bounded searches from small
+    // trees do not reach
+    {
+        let n = 28;
+        let d = dom_str("varchar1000", n, false, 1000)?;
+        let b = Battery::sparse(&d, &[0, 1, 2, 5, 6, 9, 12, 13, 17, 20, 21, 26, 27]);
+        let (ia, id, iz) = (asc(&d, n), desc(&d, n), zigzag(&d, n));
+        let mut starts = vec![];
+        for ins in [&ia, &id, &iz] {
+            for del in [&ia, &id, &iz] {
+                let mut ops = ins.clone();
+                ops.extend(as_deletes(del));
+                starts.push(Start::Built(ops));
+            }
+        }
+        if let Start::Bulk(e) = bulk_prefix(&d, n - 1, false) {
+            for del in [&ia, &id, &iz] {
+                let dels: Vec<Op> = as_deletes(del).into_iter().filter(|o| matches!(o, Op::Del(k) if e.iter().any(|x| x.0 == *k))).collect();
+                starts.push(Start::BulkThen(e.clone(), dels));
+            }
+        }
+        f.push(Family { name: "drain", reduced: b.reduced(&d), battery: b, rids: vec![0], cap: 1, delspec: false, canonical: false, starts, depth: 1, max_secs: 60.0, dom: d });
     }
     // D: composite keys with NULL components
     {
@@ -422,14 +463,28 @@ fn build_start(fam: &Family, st: &Start, counters: &mut Counters) -> Result<(Tre
             *counters.degrees.entry(t.idx.degree()).or_default() += 1;
             Ok((t, m))
         }
-        Start::Bulk(entries) => {
+        Start::Bulk(entries) | Start::BulkThen(entries, _) => {
             let e: Vec<(Key, usize)> = entries.iter().map(|(k, r)| (d.keys[*k as usize].clone(), *r as usize)).collect();
             for (k, r) in entries {
                 m[*k as usize].push(*r as usize);
             }
-            let t = Tree::bulk(&d.schema, e).map_err(|(c, msg)| (vec![], (format!("bulk_load:{}", c), format!("bulk_load of {} sorted entries failed: {}", entries.len(), msg))))?;
-            let sh = check_state(&t, fam, &m, counters).map_err(|f| (vec![], f))?;
-            counters.shape(&sh);
+            let mut t = Tree::bulk(&d.schema, e).map_err(|(c, msg)| (vec![], (format!("bulk_load:{}", c), format!("bulk_load of {} sorted entries failed: {}", entries.len(), msg))))?;
+            let mut pre = check_state(&t, fam, &m, counters).map_err(|f| (vec![], f))?;
+            counters.shape(&pre);
+            if let Start::BulkThen(_, ops) = st {
+                let mut done = vec![];
+                for op in ops {
+                    let got = t.apply(d, *op);
+                    let want = model_apply(&mut m, *op);
+                    done.push(*op);
+                    if got != want {
+                        return Err((done, ret_fail(*op, d, &got, &want)));
+                    }
+                    let post = check_state(&t, fam, &m, counters).map_err(|f| (done.clone(), f))?;
+                    note_events(counters, &pre, &post, *op, d);
+                    pre = post;
+                }
+            }
             *counters.degrees.entry(t.idx.degree()).or_default() += 1;
             Ok((t, m))
         }
@@ -636,6 +691,7 @@ fn start_label(fam: &Family, i: usize) -> String {
         Start::Empty => "empty".into(),
         Start::Built(ops) => format!("built by {} inserts ({} … {})", ops.len(), ops.first().map(|o| o.show(&fam.dom)).unwrap_or_default(), ops.last().map(|o| o.show(&fam.dom)).unwrap_or_default()),
         Start::Bulk(e) => format!("bulk_load of {} entries over {} keys", e.len(), e.iter().map(|x| x.0).collect::<HashSet<_>>().len()),
+        Start::BulkThen(e, ops) => format!("bulk_load of {} entries, then {} operations ({} …)", e.len(), ops.len(), ops.first().map(|o| o.show(&fam.dom)).unwrap_or_default()),
     }
 }
 
